@@ -184,7 +184,7 @@ impl Scenario for C16 {
             };
         }
         let mut cfg = TreeCfg::swarm(rng, thorough);
-        if !thorough {
+        if !thorough && cfg.max_leaves < 600 {
             cfg.max_leaves = cfg.max_leaves.min(150);
         }
         let mut tree = gen_tree(rng, &cfg);
@@ -549,7 +549,7 @@ impl Scenario for C20 {
             };
         }
         let mut cfg = TreeCfg::swarm(rng, thorough);
-        if !thorough {
+        if !thorough && cfg.max_leaves < 600 {
             cfg.max_leaves = cfg.max_leaves.min(120);
         }
         let mut tree = gen_tree(rng, &cfg);
